@@ -2,10 +2,12 @@
 C18 line-protocol driver, part 2: the consumer streams (see harness/internal/c18/consumers.go)
   httpmap <source> <er|re> <exIn> <exOutM> <exOutN> <a|l> <P> <S> <reOutM> <reOutN> <defM> <defN> <probe> <X-In> <q> <secret>
   httphdr <q|s> <addF> <addV> <setF> <setV1> <setV2> <del1> <del2> <repF> <s|a|l> <search|P> <S> <replace> <X-In> <q> <secret>
+  httprwm <prefix> <suffix> <subFind> <subReplace> <subLimit> <a|l|-> <P> <S> <reReplace> <path> <rawQuery> <secret>
 `!` = JSON null / absent.  All byte fields must be ASCII.
 -/
 import CaddyModel.C18.MapH
 import CaddyModel.C18.Headers
+import CaddyModel.C18.RwMods
 
 namespace CaddyModel.C18
 
@@ -111,6 +113,26 @@ def handleHdr : List String → String
             "ok " ++ dumpHdrs (hdrApplyTo false (fun _ => expandKnown (hdrEnv r [(str "X-In", [xin])])) ops init)
               ++ " " ++ Hex.encode (str "example.test")
       | _, _, _, _, _, _ => "bad-op"
+    | _, _, _, _, _, _, _, _ => "bad-op"
+  | _ => "bad-op"
+
+/-! ### httprwm -/
+
+def handleRwm : List String → String
+  | [pre, suf, sf, sr, lim, kind, p, s, rr, path, rq, secret] =>
+    match Hex.decode pre, Hex.decode suf, Hex.decode sf, Hex.decode sr, lim.toNat?, Hex.decode p, Hex.decode s, Hex.decode rr with
+    | some pre, some suf, some sf, some sr, some lim, some p, some s, some rr =>
+      match Hex.decode path, Hex.decode rq, Hex.decode secret with
+      | some path, some rq, some secret =>
+        if ![pre, suf, sf, sr, p, s, rr, path, rq, secret].all isAscii then "bad-op"
+        else if lim > 9 then "bad-op"
+        else if kind != "a" && kind != "l" && kind != "-" then "bad-op"
+        else if kind == "l" && p.isEmpty then "bad-op"
+        else
+          let m : RwMods := ⟨pre, suf, sf, sr, lim, (if kind == "-" then none else mkPat kind p s), rr⟩
+          let out := rwmApply false (fun u => expandAll (rwmEnv secret u)) m ⟨path, [], rq⟩
+          "ok " ++ Hex.encode out.path ++ " " ++ Hex.encode out.rawPath ++ " " ++ Hex.encode out.rawQuery
+      | _, _, _ => "bad-op"
     | _, _, _, _, _, _, _, _ => "bad-op"
   | _ => "bad-op"
 
